@@ -17,3 +17,219 @@ package shutterevents
 //@ func (*BatchConfig).EnsureValid
 //@   requires bc != nil && len(bc.Keypers) <= 1048576
 //@   ensures ret0 == nil <==> cfgValid(bc)
+//@
+//@ // ---- C14: events as shuttermint wrote them ---------------------------------------------------------------
+//@ // positional attribute-name check: what makes every ev.Attributes[k] below an in-bounds index
+//@ func expectAttributes
+//@   ensures ret0 == nil ==> (len(ev.Attributes) >= len(names) && (forall i :: 0 <= i && i < len(names) ==> ev.Attributes[i].Key == names[i]))
+//@   ensures (len(ev.Attributes) >= len(names) && (forall i :: 0 <= i && i < len(names) ==> ev.Attributes[i].Key == names[i])) ==> ret0 == nil
+//@   invariant forall j :: 0 <= j && j <= rangeindex ==> ev.Attributes[j].Key == names[j]
+//@
+//@ // ---- attribute codecs: each encoder produces, and each decoder consumes, the library encoding named by an
+//@ // uninterpreted function of externals.vspec (A-str); lists are characterised piecewise (splitLen/splitAt)
+//@ pred addrsEnc(s, addrs) := (len(addrs) == 0 ==> s == "") && (len(addrs) >= 1 ==> (s != "" && splitLen(s) == len(addrs) && (forall i :: 0 <= i && i < len(addrs) ==> splitAt(s, i) == addrHex(addrs[i]))))
+//@ pred addrsDecodable(s) := s == "" || (forall i :: 0 <= i && i < splitLen(s) ==> isHexAddr(splitAt(s, i)))
+//@ pred addrsDec(res, s) := (s == "" ==> len(res) == 0) && (s != "" ==> (len(res) == splitLen(s) && (forall i :: 0 <= i && i < len(res) ==> res[i] == hexToAddr(splitAt(s, i)))))
+//@ func encodeAddresses
+//@   ensures addrsEnc(ret0, addr)
+//@   invariant len(hexstrings) == rangeindex + 1
+//@   invariant forall j :: 0 <= j && j <= rangeindex ==> hexstrings[j] == addrHex(addr[j])
+//@ func decodeAddresses
+//@   ensures addrsDecodable(s) ==> (ret1 == nil && addrsDec(ret0, s))
+//@   invariant len(res) == rangeindex + 1
+//@   invariant forall j :: 0 <= j && j <= rangeindex ==> res[j] == hexToAddr(splitAt(s, j))
+//@ func encodeUint64
+//@   ensures ret0 == fmtU64(val)
+//@ func decodeUint64
+//@   ensures isFmtU64(val) ==> (ret1 == nil && ret0 == parseU64(val))
+//@ func encodeAddress
+//@   ensures ret0 == addrHex(a)
+//@ // only the canonical (checksummed) spelling is accepted
+//@ func decodeAddress
+//@   ensures ret1 == nil ==> (ret0 == hexToAddr(s) && addrHex(ret0) == s)
+//@   ensures addrHex(hexToAddr(s)) == s ==> ret1 == nil
+//@ func newAddressPair
+//@   ensures ret0.Key == key && ret0.Value == addrHex(value)
+//@ func newAddressesPair
+//@   ensures ret0.Key == key && addrsEnc(ret0.Value, value)
+//@ func newUintPair
+//@   ensures ret0.Key == key && ret0.Value == fmtU64(value)
+//@
+//@ // ---- per event type: what MakeABCIEvent writes (type string, attribute names, positions, encodings) and
+//@ // what make* reads back; the round trip itself is the contract of the verif-tagged hooks below
+//@ func (Accusation).MakeABCIEvent
+//@   ensures ret0.Type == "shutter.accusation-registered" && len(ret0.Attributes) == 3
+//@   ensures ret0.Attributes[0].Key == "Sender" && ret0.Attributes[0].Value == addrHex(acc.Sender)
+//@   ensures ret0.Attributes[1].Key == "Eon" && ret0.Attributes[1].Value == fmtU64(acc.Eon)
+//@   ensures ret0.Attributes[2].Key == "Accused" && addrsEnc(ret0.Attributes[2].Value, acc.Accused)
+//@ pred attrs3(ev, a, b, c) := len(ev.Attributes) >= 3 && ev.Attributes[0].Key == a && ev.Attributes[1].Key == b && ev.Attributes[2].Key == c
+//@ func makeAccusation
+//@   ensures ret1 == nil ==> (ret0 != nil && ret0.Height == height)
+//@   ensures (attrs3(ev, "Sender", "Eon", "Accused") && addrHex(hexToAddr(ev.Attributes[0].Value)) == ev.Attributes[0].Value && isFmtU64(ev.Attributes[1].Value) && addrsDecodable(ev.Attributes[2].Value)) ==> (ret1 == nil && ret0.Sender == hexToAddr(ev.Attributes[0].Value) && ret0.Eon == parseU64(ev.Attributes[1].Value) && addrsDec(ret0.Accused, ev.Attributes[2].Value))
+//@
+//@ pred sameAddrs(a, b) := len(a) == len(b) && (forall i :: 0 <= i && i < len(a) ==> a[i] == b[i])
+//@ pred rtAccusation(r) := as(r, "*shutterevents.Accusation")
+//@ func verifRoundTripAccusation
+//@   ensures ret1 == nil && typeis(ret0, "*shutterevents.Accusation") && rtAccusation(ret0) != nil
+//@   ensures rtAccusation(ret0).Height == h && rtAccusation(ret0).Eon == x.Eon && rtAccusation(ret0).Sender == x.Sender && sameAddrs(rtAccusation(ret0).Accused, x.Accused)
+//@
+//@ // ---- EonStarted
+//@ func (EonStarted).MakeABCIEvent
+//@   ensures ret0.Type == "shutter.eon-started" && len(ret0.Attributes) == 3
+//@   ensures ret0.Attributes[0].Key == "Eon" && ret0.Attributes[0].Value == fmtU64(msg.Eon)
+//@   ensures ret0.Attributes[1].Key == "ActivationBlockNumber" && ret0.Attributes[1].Value == fmtU64(msg.ActivationBlockNumber)
+//@   ensures ret0.Attributes[2].Key == "KeyperConfigIndex" && ret0.Attributes[2].Value == fmtU64(msg.KeyperConfigIndex)
+//@ func makeEonStarted
+//@   ensures ret1 == nil ==> (ret0 != nil && ret0.Height == height)
+//@   ensures (attrs3(ev, "Eon", "ActivationBlockNumber", "KeyperConfigIndex") && isFmtU64(ev.Attributes[0].Value) && isFmtU64(ev.Attributes[1].Value) && isFmtU64(ev.Attributes[2].Value)) ==> (ret1 == nil && ret0.Eon == parseU64(ev.Attributes[0].Value) && ret0.ActivationBlockNumber == parseU64(ev.Attributes[1].Value) && ret0.KeyperConfigIndex == parseU64(ev.Attributes[2].Value))
+//@ pred rtEonStarted(r) := as(r, "*shutterevents.EonStarted")
+//@ func verifRoundTripEonStarted
+//@   ensures ret1 == nil && typeis(ret0, "*shutterevents.EonStarted") && rtEonStarted(ret0) != nil
+//@   ensures rtEonStarted(ret0).Height == h && rtEonStarted(ret0).Eon == x.Eon && rtEonStarted(ret0).ActivationBlockNumber == x.ActivationBlockNumber && rtEonStarted(ret0).KeyperConfigIndex == x.KeyperConfigIndex
+//@
+//@ // ---- BatchConfigStarted
+//@ func (BatchConfigStarted).MakeABCIEvent
+//@   ensures ret0.Type == "shutter.batch-config-started" && len(ret0.Attributes) == 1
+//@   ensures ret0.Attributes[0].Key == "ConfigIndex" && ret0.Attributes[0].Value == fmtU64(bcs.KeyperConfigIndex)
+//@ func makeBatchConfigStarted
+//@   ensures ret1 == nil ==> (ret0 != nil && ret0.Height == height)
+//@   ensures (len(ev.Attributes) >= 1 && ev.Attributes[0].Key == "ConfigIndex" && isFmtU64(ev.Attributes[0].Value)) ==> (ret1 == nil && ret0.KeyperConfigIndex == parseU64(ev.Attributes[0].Value))
+//@ pred rtBCS(r) := as(r, "*shutterevents.BatchConfigStarted")
+//@ func verifRoundTripBatchConfigStarted
+//@   ensures ret1 == nil && typeis(ret0, "*shutterevents.BatchConfigStarted") && rtBCS(ret0) != nil
+//@   ensures rtBCS(ret0).Height == h && rtBCS(ret0).KeyperConfigIndex == x.KeyperConfigIndex
+//@
+//@ // ---- BatchConfig (Started / ValidatorsUpdated are not part of the event: they are node-local bookkeeping)
+//@ pred attrs4(ev, a, b, c, d) := len(ev.Attributes) >= 4 && ev.Attributes[0].Key == a && ev.Attributes[1].Key == b && ev.Attributes[2].Key == c && ev.Attributes[3].Key == d
+//@ func (BatchConfig).MakeABCIEvent
+//@   ensures ret0.Type == "shutter.batch-config" && len(ret0.Attributes) == 4
+//@   ensures ret0.Attributes[0].Key == "ActivationBlockNumber" && ret0.Attributes[0].Value == fmtU64(bc.ActivationBlockNumber)
+//@   ensures ret0.Attributes[1].Key == "Threshold" && ret0.Attributes[1].Value == fmtU64(bc.Threshold)
+//@   ensures ret0.Attributes[2].Key == "Keypers" && addrsEnc(ret0.Attributes[2].Value, bc.Keypers)
+//@   ensures ret0.Attributes[3].Key == "ConfigIndex" && ret0.Attributes[3].Value == fmtU64(bc.KeyperConfigIndex)
+//@ func makeBatchConfig
+//@   ensures ret1 == nil ==> (ret0 != nil && ret0.Height == height && !ret0.Started && !ret0.ValidatorsUpdated)
+//@   ensures (attrs4(ev, "ActivationBlockNumber", "Threshold", "Keypers", "ConfigIndex") && isFmtU64(ev.Attributes[0].Value) && isFmtU64(ev.Attributes[1].Value) && addrsDecodable(ev.Attributes[2].Value) && isFmtU64(ev.Attributes[3].Value)) ==> (ret1 == nil && ret0.ActivationBlockNumber == parseU64(ev.Attributes[0].Value) && ret0.Threshold == parseU64(ev.Attributes[1].Value) && addrsDec(ret0.Keypers, ev.Attributes[2].Value) && ret0.KeyperConfigIndex == parseU64(ev.Attributes[3].Value))
+//@ pred rtBC(r) := as(r, "*shutterevents.BatchConfig")
+//@ func verifRoundTripBatchConfig
+//@   ensures ret1 == nil && typeis(ret0, "*shutterevents.BatchConfig") && rtBC(ret0) != nil
+//@   ensures rtBC(ret0).Height == h && rtBC(ret0).ActivationBlockNumber == x.ActivationBlockNumber && rtBC(ret0).Threshold == x.Threshold && rtBC(ret0).KeyperConfigIndex == x.KeyperConfigIndex && sameAddrs(rtBC(ret0).Keypers, x.Keypers)
+//@
+//@ // ---- byte-string lists (hexutil "0x.." pieces joined by ",")
+//@ pred bseqEnc(s, v) := (len(v) == 0 ==> s == "") && (len(v) >= 1 ==> (s != "" && splitLen(s) == len(v) && (forall i :: 0 <= i && i < len(v) ==> splitAt(s, i) == hexOf(content(v[i])))))
+//@ pred bseqDecodable(s) := s == "" || (forall i :: 0 <= i && i < splitLen(s) ==> isHexEnc(splitAt(s, i)))
+//@ pred bseqDec(res, s) := (s == "" ==> len(res) == 0) && (s != "" ==> (len(res) == splitLen(s) && (forall i :: 0 <= i && i < len(res) ==> content(res[i]) == hexDec(splitAt(s, i)))))
+//@ func encodeByteSequence
+//@   ensures bseqEnc(ret0, v)
+//@   invariant len(hexstrings) == rangeindex + 1
+//@   invariant forall j :: 0 <= j && j <= rangeindex ==> hexstrings[j] == hexOf(content(v[j]))
+//@ func decodeByteSequence
+//@   ensures bseqDecodable(s) ==> (ret1 == nil && bseqDec(ret0, s))
+//@   invariant len(res) == rangeindex + 1
+//@   invariant bseqDecodable(s) ==> (forall j :: 0 <= j && j <= rangeindex ==> content(res[j]) == hexDec(splitAt(s, j)))
+//@ func newByteSequencePair
+//@   ensures ret0.Key == key && bseqEnc(ret0.Value, value)
+//@
+//@ // ---- PolyEval
+//@ func (PolyEval).MakeABCIEvent
+//@   ensures ret0.Type == "shutter.poly-eval-registered" && len(ret0.Attributes) == 4
+//@   ensures ret0.Attributes[0].Key == "Sender" && ret0.Attributes[0].Value == addrHex(msg.Sender)
+//@   ensures ret0.Attributes[1].Key == "Eon" && ret0.Attributes[1].Value == fmtU64(msg.Eon)
+//@   ensures ret0.Attributes[2].Key == "Receivers" && addrsEnc(ret0.Attributes[2].Value, msg.Receivers)
+//@   ensures ret0.Attributes[3].Key == "EncryptedEvals" && bseqEnc(ret0.Attributes[3].Value, msg.EncryptedEvals)
+//@ func makePolyEval
+//@   ensures ret1 == nil ==> (ret0 != nil && ret0.Height == height)
+//@   ensures (attrs4(ev, "Sender", "Eon", "Receivers", "EncryptedEvals") && addrHex(hexToAddr(ev.Attributes[0].Value)) == ev.Attributes[0].Value && isFmtU64(ev.Attributes[1].Value) && addrsDecodable(ev.Attributes[2].Value) && bseqDecodable(ev.Attributes[3].Value)) ==> (ret1 == nil && ret0.Sender == hexToAddr(ev.Attributes[0].Value) && ret0.Eon == parseU64(ev.Attributes[1].Value) && addrsDec(ret0.Receivers, ev.Attributes[2].Value) && bseqDec(ret0.EncryptedEvals, ev.Attributes[3].Value))
+//@ pred sameByteSeqs(a, b) := len(a) == len(b) && (forall i :: 0 <= i && i < len(a) ==> content(a[i]) == content(b[i]))
+//@ pred rtPolyEval(r) := as(r, "*shutterevents.PolyEval")
+//@ func verifRoundTripPolyEval
+//@   ensures ret1 == nil && typeis(ret0, "*shutterevents.PolyEval") && rtPolyEval(ret0) != nil
+//@   ensures rtPolyEval(ret0).Height == h && rtPolyEval(ret0).Eon == x.Eon && rtPolyEval(ret0).Sender == x.Sender && sameAddrs(rtPolyEval(ret0).Receivers, x.Receivers) && sameByteSeqs(rtPolyEval(ret0).EncryptedEvals, x.EncryptedEvals)
+//@
+//@ // ---- Apology: polynomial evaluations travel as the big-endian bytes of non-negative integers
+//@ pred bigsEnc(s, v) := (len(v) == 0 ==> s == "") && (len(v) >= 1 ==> (s != "" && splitLen(s) == len(v) && (forall i :: 0 <= i && i < len(v) ==> (isHexEnc(splitAt(s, i)) && be_int(hexDec(splitAt(s, i))) == bigval(v[i])))))
+//@ pred bigsOK(v) := forall i :: 0 <= i && i < len(v) ==> (v[i] != nil && bigval(v[i]) >= 0)
+//@ func (Apology).MakeABCIEvent
+//@   requires bigsOK(msg.PolyEval)
+//@   ensures ret0.Type == "shutter.apology-registered" && len(ret0.Attributes) == 4
+//@   ensures ret0.Attributes[0].Key == "Sender" && ret0.Attributes[0].Value == addrHex(msg.Sender)
+//@   ensures ret0.Attributes[1].Key == "Eon" && ret0.Attributes[1].Value == fmtU64(msg.Eon)
+//@   ensures ret0.Attributes[2].Key == "Accusers" && addrsEnc(ret0.Attributes[2].Value, msg.Accusers)
+//@   ensures ret0.Attributes[3].Key == "PolyEvals" && bigsEnc(ret0.Attributes[3].Value, msg.PolyEval)
+//@   invariant len(polyEvalBytes) == rangeindex + 1
+//@   invariant forall j :: 0 <= j && j <= rangeindex ==> be_int(content(polyEvalBytes[j])) == bigval(msg.PolyEval[j])
+//@ func makeApology
+//@   ensures ret1 == nil ==> (ret0 != nil && ret0.Height == height)
+//@   ensures (attrs4(ev, "Sender", "Eon", "Accusers", "PolyEvals") && addrHex(hexToAddr(ev.Attributes[0].Value)) == ev.Attributes[0].Value && isFmtU64(ev.Attributes[1].Value) && addrsDecodable(ev.Attributes[2].Value) && bseqDecodable(ev.Attributes[3].Value)) ==> (ret1 == nil && ret0.Sender == hexToAddr(ev.Attributes[0].Value) && ret0.Eon == parseU64(ev.Attributes[1].Value) && addrsDec(ret0.Accusers, ev.Attributes[2].Value))
+//@   ensures (attrs4(ev, "Sender", "Eon", "Accusers", "PolyEvals") && addrHex(hexToAddr(ev.Attributes[0].Value)) == ev.Attributes[0].Value && isFmtU64(ev.Attributes[1].Value) && addrsDecodable(ev.Attributes[2].Value) && bseqDecodable(ev.Attributes[3].Value)) ==> ((ev.Attributes[3].Value == "" ==> len(ret0.PolyEval) == 0) && (ev.Attributes[3].Value != "" ==> (len(ret0.PolyEval) == splitLen(ev.Attributes[3].Value) && (forall i :: 0 <= i && i < len(ret0.PolyEval) ==> (ret0.PolyEval[i] != nil && bigval(ret0.PolyEval[i]) == be_int(hexDec(splitAt(ev.Attributes[3].Value, i))))))))
+//@   invariant len(polyEval) == rangeindex + 1
+//@   invariant forall j :: 0 <= j && j <= rangeindex ==> (polyEval[j] != nil && bigval(polyEval[j]) == be_int(content(polyEvalBytes[j])))
+//@ pred rtApology(r) := as(r, "*shutterevents.Apology")
+//@ func verifRoundTripApology
+//@   requires bigsOK(x.PolyEval)
+//@   ensures ret1 == nil && typeis(ret0, "*shutterevents.Apology") && rtApology(ret0) != nil
+//@   ensures rtApology(ret0).Height == h && rtApology(ret0).Eon == x.Eon && rtApology(ret0).Sender == x.Sender && sameAddrs(rtApology(ret0).Accusers, x.Accusers)
+//@   ensures len(rtApology(ret0).PolyEval) == len(x.PolyEval) && (forall i :: 0 <= i && i < len(x.PolyEval) ==> (rtApology(ret0).PolyEval[i] != nil && bigval(rtApology(ret0).PolyEval[i]) == bigval(x.PolyEval[i])))
+//@
+//@ // ---- CheckIn: the encryption key travels as base64url of the uncompressed point
+//@ func encodePubkey
+//@   requires pubkey != nil
+//@   ensures ret0 == b64Enc(pubBytes(ecdsaPoint(pubkey)))
+//@ func decodePubkey
+//@   ensures ret1 == nil ==> ret0 != nil
+//@   ensures (isB64(val) && isPubBytes(b64Dec(val))) ==> (ret1 == nil && ecdsaPoint(ret0) == pubOfBytes(b64Dec(val)))
+//@ func encodeECIESPublicKey
+//@   requires key != nil
+//@   ensures ret0 == b64Enc(pubBytes(eciesPoint(key)))
+//@ func decodeECIESPublicKey
+//@   ensures ret1 == nil ==> ret0 != nil
+//@   ensures (isB64(val) && isPubBytes(b64Dec(val))) ==> (ret1 == nil && eciesPoint(ret0) == pubOfBytes(b64Dec(val)))
+//@ func (CheckIn).MakeABCIEvent
+//@   requires msg.EncryptionPublicKey != nil
+//@   ensures ret0.Type == "shutter.check-in" && len(ret0.Attributes) == 2
+//@   ensures ret0.Attributes[0].Key == "Sender" && ret0.Attributes[0].Value == addrHex(msg.Sender)
+//@   ensures ret0.Attributes[1].Key == "EncryptionPublicKey" && ret0.Attributes[1].Value == b64Enc(pubBytes(eciesPoint(msg.EncryptionPublicKey)))
+//@ func makeCheckIn
+//@   ensures ret1 == nil ==> (ret0 != nil && ret0.Height == height && ret0.EncryptionPublicKey != nil)
+//@   ensures (len(ev.Attributes) >= 2 && ev.Attributes[0].Key == "Sender" && ev.Attributes[1].Key == "EncryptionPublicKey" && addrHex(hexToAddr(ev.Attributes[0].Value)) == ev.Attributes[0].Value && isB64(ev.Attributes[1].Value) && isPubBytes(b64Dec(ev.Attributes[1].Value))) ==> (ret1 == nil && ret0.Sender == hexToAddr(ev.Attributes[0].Value) && eciesPoint(ret0.EncryptionPublicKey) == pubOfBytes(b64Dec(ev.Attributes[1].Value)))
+//@ pred rtCheckIn(r) := as(r, "*shutterevents.CheckIn")
+//@ func verifRoundTripCheckIn
+//@   requires x.EncryptionPublicKey != nil
+//@   ensures ret1 == nil && typeis(ret0, "*shutterevents.CheckIn") && rtCheckIn(ret0) != nil
+//@   ensures rtCheckIn(ret0).Height == h && rtCheckIn(ret0).Sender == x.Sender && rtCheckIn(ret0).EncryptionPublicKey != nil && eciesPoint(rtCheckIn(ret0).EncryptionPublicKey) == old(eciesPoint(x.EncryptionPublicKey))
+//@
+//@ // ---- PolyCommitment: the commitment travels as plain hex of the concatenated compressed points
+//@ func encodeGammas
+//@   requires gammas != nil
+//@   ensures ret0 == hexStdEnc(gammasBytes(gammasAbs(arrof(deref(gammas)))))
+//@ func decodeGammas
+//@   assigns hfn:gammasAbs
+//@   ensures (isHexStd(eventValue) && isGammasBytes(hexStdDec(eventValue))) ==> (ret1 == nil && gammasAbs(arrof(ret0)) == gammasOfBytes(hexStdDec(eventValue)))
+//@   ensures forall p :: (0 < p && p < old(allocmark())) ==> gammasAbs(p) == old(gammasAbs(p))
+//@   opt frame=off
+//@ func newGammas
+//@   requires gammas != nil
+//@   ensures ret0.Key == key && ret0.Value == hexStdEnc(gammasBytes(gammasAbs(arrof(deref(gammas)))))
+//@ func (PolyCommitment).MakeABCIEvent
+//@   requires msg.Gammas != nil
+//@   ensures ret0.Type == "shutter.poly-commitment-registered" && len(ret0.Attributes) == 3
+//@   ensures ret0.Attributes[0].Key == "Sender" && ret0.Attributes[0].Value == addrHex(msg.Sender)
+//@   ensures ret0.Attributes[1].Key == "Eon" && ret0.Attributes[1].Value == fmtU64(msg.Eon)
+//@   ensures ret0.Attributes[2].Key == "Gammas" && ret0.Attributes[2].Value == hexStdEnc(gammasBytes(gammasAbs(arrof(deref(msg.Gammas)))))
+//@ func makePolyCommitment
+//@   assigns hfn:gammasAbs
+//@   ensures ret1 == nil ==> (ret0 != nil && ret0.Height == height && ret0.Gammas != nil)
+//@   ensures (attrs3(ev, "Sender", "Eon", "Gammas") && addrHex(hexToAddr(ev.Attributes[0].Value)) == ev.Attributes[0].Value && isFmtU64(ev.Attributes[1].Value) && isHexStd(ev.Attributes[2].Value) && isGammasBytes(hexStdDec(ev.Attributes[2].Value))) ==> (ret1 == nil && ret0.Sender == hexToAddr(ev.Attributes[0].Value) && ret0.Eon == parseU64(ev.Attributes[1].Value) && gammasAbs(arrof(deref(ret0.Gammas))) == gammasOfBytes(hexStdDec(ev.Attributes[2].Value)))
+//@ pred rtPolyCommitment(r) := as(r, "*shutterevents.PolyCommitment")
+//@ func verifRoundTripPolyCommitment
+//@   requires x.Gammas != nil
+//@   assigns hfn:gammasAbs
+//@   ensures ret1 == nil && typeis(ret0, "*shutterevents.PolyCommitment") && rtPolyCommitment(ret0) != nil
+//@   ensures rtPolyCommitment(ret0).Height == h && rtPolyCommitment(ret0).Eon == x.Eon && rtPolyCommitment(ret0).Sender == x.Sender && rtPolyCommitment(ret0).Gammas != nil && gammasAbs(arrof(deref(rtPolyCommitment(ret0).Gammas))) == old(gammasAbs(arrof(deref(x.Gammas))))
+//@
+//@ // decoding is total: for ARBITRARY events (any type string, any number of attributes, any keys and values)
+//@ // every decoder returns a value or an error and never indexes outside the attribute list
+//@ // dispatch on the type string; unknown types are an error (callers inline the dispatch: opt inline=always)
+//@ func MakeEvent
+//@   opt inline=always
+//@   ensures ret1 == nil ==> ret0 != nil
